@@ -537,6 +537,41 @@ func ruleR23(c *Ctx) *RuleResult {
 			if sorted == nil && len(g.Effects) > 0 {
 				bad = append(bad, "a path of Sort changes the list without sorting")
 			}
+			if sorted == nil && len(g.Effects) == 0 && g.Exit.Op == "return" {
+				// leaving without sorting is right only for a list of at most one element
+				atMostOne := false
+				for _, a := range g.Guards {
+					if len(a.Args) != 2 {
+						continue
+					}
+					isSize := func(t *Term) bool {
+						return (t.Op == "len" && hasField(t, "elements")) || (t.Op == "load" && len(t.Args) == 1 && t.Args[0].Op == "fa" && t.Args[0].Leaf == "size") || (t.Op == "call" && strings.HasSuffix(t.Leaf, ").Size"))
+					}
+					x, y := a.Args[0], a.Args[1]
+					switch {
+					case a.Op == "<" && isSize(x):
+						if k, ok := y.constInt(); ok && k <= 2 {
+							atMostOne = true
+						}
+					case a.Op == "<=" && isSize(x):
+						if k, ok := y.constInt(); ok && k <= 1 {
+							atMostOne = true
+						}
+					case a.Op == "==" && (isSize(x) || isSize(y)):
+						for _, z := range []*Term{x, y} {
+							if k, ok := z.constInt(); ok && k <= 1 {
+								atMostOne = true
+							}
+						}
+					}
+					if a.Op == "call" && strings.HasSuffix(a.Leaf, ").Empty") {
+						atMostOne = true
+					}
+				}
+				if !atMostOne {
+					bad = append(bad, "a path of Sort returns without sorting and without knowing that the list has at most one element: "+trunc(guardsString(g), 200))
+				}
+			}
 		}
 		if nsort == 0 {
 			bad = append(bad, "no sorting call found")
